@@ -169,9 +169,12 @@ TEdit ==
      IN /\ judged => (r.ok = ~InCheck(b2, Other(pos.stm))) = TRUE
         /\ IF r.ok
            THEN LET p == EvPos(r)
+                   \* an edited board is a position in its own right: "the last move was a double push" is history that the
+                   \* edit made void (a pawn recoloured beside a pawn that has just advanced two squares creates no
+                   \* en-passant right) - from here on the en-passant square is whatever the edited position carries
                 IN /\ judged => (p = [pos EXCEPT !.b = b2]) = TRUE
-                   /\ pos' = p /\ ld' = ld /\ dom' = Valid(p)
-                   /\ (IF Valid(p) THEN Obs(r, p, pos, ld, FALSE) ELSE TRUE) = TRUE
+                   /\ pos' = p /\ ld' = p.ep /\ dom' = Valid(p)
+                   /\ (IF Valid(p) THEN Obs(r, p, pos, p.ep, FALSE) ELSE TRUE) = TRUE
                    /\ hmap' = HmapAfter(r, p)
            ELSE UNCHANGED <<pos, ld, dom, hmap>>
 
